@@ -84,7 +84,12 @@ def handlers : List (String × (List Sexp → String)) := [
         .list [.atom "classShadow", strs (classShadow s)],
         .list [.atom "argAnnotations", strs (argAnnotations s)],
         .list [.atom "globalBelow", strs (globalBelow s)],
-        .list [.atom "nonlocalBelow", strs (nonlocalBelow s)]])))
+        .list [.atom "nonlocalBelow", strs (nonlocalBelow s)]]))),
+  ("c08.frag", fun a => run do
+      let [x] := a | none
+      let s ← parseStmt x
+      pure (toString (Sexp.list [Sexp.ofBool (FragS s), Sexp.ofBool (SpecOkS s), Sexp.ofBool (uniqueAnnos (analyze s).annos),
+        Sexp.ofBool (declsDisjoint s)])))
 ]
 
 end Malt.Drv.C08
